@@ -16,7 +16,7 @@ import (
 )
 
 func TestMain(m *testing.M) {
-	vh.Rule("rapid: histories of 1..4 successive messages on channel 0 of a Conn over a capturing transport; per message a packet size (boundary set 256,257,511,512,513,1024,4096,65535 or uniform 256..65535, changed the way a server does it: an ENVCHANGE(PACKSIZE) response fed through Channel.WritePacket), a header type out of all PacketHeaderTypes, 1..6 packages of mixed types (LANGUAGE, DYNAMIC/2, MSG, LOGOUT, cursor packages, PARAMFMT+PARAMS) with one LANGUAGE sized so that the total length is k*(packetSize-8)+d (k 1..4, d in -1,0,+1) in half the cases, and a split of the calls into QueuePackage*+SendRemainingPackets or a final SendPackage; exhaustive: packet sizes {256,257,512,513,1024,65535} x k 1..3 x d -1..1 x 3 package layouts x both flush styles. Oracle: expected bytes come from Package.WriteTo on an own flat BytesChannel; captured bytes must parse as packets (one Write per packet, header length = write size <= packet size in force, all but the last full, type and channel id right, EOM on the last packet of each message and on no other, bodies concatenate to the expected encoding, header type back to NORMAL afterwards). Non-trivial: the message spans >= 2 packets, or its length is an exact multiple of the packet body size, or the packet size changed before it; distinct by (packet size, total length, layout, header type)")
+	vh.Rule("rapid: histories of 1..4 successive messages on channel 0 of a Conn over a capturing transport; per message a packet size (boundary set 256,257,511,512,513,1024,4096,65535 or uniform 256..65535, changed the way a server does it: an ENVCHANGE(PACKSIZE) response fed through Channel.WritePacket), a header type out of all PacketHeaderTypes, 1..6 packages of mixed types (LANGUAGE, DYNAMIC/2, MSG, LOGOUT, cursor packages, PARAMFMT+PARAMS) with one LANGUAGE sized so that the total length is k*(packetSize-8)+d (k 1..4, d in -1,0,+1) in half the cases, and a split of the calls into QueuePackage*+SendRemainingPackets or a final SendPackage; raw blob packages whose buffer the caller overwrites right after queueing; messages whose flush is attempted with a cancelled context (nothing may be written or left behind); exhaustive: packet sizes {256,257,512,513,1024,65535} x k 1..3 x d -1..1 x 3 package layouts x both flush styles. Oracle: expected bytes come from Package.WriteTo on an own flat BytesChannel; captured bytes must parse as packets (one Write per packet, header length = write size <= packet size in force, all but the last full, type and channel id right, EOM on the last packet of each message and on no other, bodies concatenate to the expected encoding, header type back to NORMAL afterwards). Non-trivial: the message spans >= 2 packets, or its length is an exact multiple of the packet body size, or the packet size changed before it; distinct by (packet size, total length, layout, header type)")
 	vh.Assume("channel 0 only (logical channels are covered with C12); no concurrency; error paths of a failing WriteTo are outside the statement; packet sizes 256..65535 (what a server may negotiate and the 16-bit header length can carry)")
 	vh.Main(m, "C01")
 }
@@ -27,6 +27,9 @@ type pdesc struct {
 }
 
 type msgCase struct {
+	// Abort: the message is queued, but the flush is attempted with an already cancelled
+	// context: nothing may be written, and nothing of it may turn up in the next message
+	Abort      bool    `json:"flush_with_cancelled_context,omitempty"`
 	PacketSize int     `json:"packet_size"`
 	HeaderType int     `json:"header_type"`
 	Pkgs       []pdesc `json:"pkgs"`
@@ -71,6 +74,12 @@ func build(d pdesc, salt byte) []tds.Package {
 		return []tds.Package{&tds.CurFetchPackage{CursorID: 7, Type: tds.TDS_CUR_ABS, RowNumber: int32(d.N)}}
 	case "curdeclare":
 		p, _ := tds.NewCurDeclarePackage("c"+fmt.Sprint(salt), pattern(d.N, salt), tds.TDS_CUR_DSTAT_UNUSED, tds.TDS_CUR_DOPT_RDONLY)
+		return []tds.Package{p}
+	case "tokenless":
+		// a raw blob (like the login record); the caller owns the buffer and may reuse it
+		// as soon as QueuePackage has returned
+		p := tds.NewTokenlessPackage()
+		p.Data.WriteString(pattern(d.N+1, salt))
 		return []tds.Package{p}
 	case "params":
 		// PARAMFMT + PARAMS the way Login builds them: INT4 and LONGBINARY
@@ -150,6 +159,28 @@ func runCase(c c01Case) (f *vh.Failure) {
 		for i, d := range m.Pkgs {
 			pkgs = append(pkgs, build(d, byte(mi)+byte(i))...)
 		}
+		if m.Abort {
+			// queue everything but the last package normally (full packets may go out), then
+			// flush with a cancelled context
+			cctx, ccancel := context.WithCancel(ctx)
+			ccancel()
+			for _, p := range pkgs {
+				if err := ch.QueuePackage(cctx, p); err != nil {
+					break
+				}
+			}
+			if err := ch.SendRemainingPackets(cctx); err == nil {
+				return vh.Failf("C01/cancelled-flush-succeeds", "message %d: SendRemainingPackets with a cancelled context returned nil", mi)
+			}
+			if n := len(pipe.Written()) - off; n != 0 {
+				return vh.Failf("C01/cancelled-flush-writes", "message %d: %d bytes written although the context was cancelled before the first call", mi, n)
+			}
+			if ch.CurrentHeaderType != tds.TDS_BUF_NORMAL {
+				return vh.Failf("C01/header-type-not-reset", "message %d: CurrentHeaderType is %d after the aborted message", mi, ch.CurrentHeaderType)
+			}
+			vh.Label("aborted-message")
+			continue
+		}
 		for i, p := range pkgs {
 			if m.SendLast && i == len(pkgs)-1 {
 				err = ch.SendPackage(ctx, p)
@@ -158,6 +189,15 @@ func runCase(c c01Case) (f *vh.Failure) {
 			}
 			if err != nil {
 				return vh.Failf("C01/send-error", "message %d package %d: %v", mi, i, err)
+			}
+			if tl, ok := p.(*tds.TokenlessPackage); ok {
+				// the package has been queued: what the caller does with its buffer afterwards
+				// must not change what is sent
+				b := tl.Data.Bytes()
+				for j := range b {
+					b[j] = '#'
+				}
+				vh.Label("buffer-reused-after-queueing")
 			}
 		}
 		if !m.SendLast {
@@ -247,7 +287,7 @@ func sign(r, body int) int {
 	return 9 // elsewhere
 }
 
-var smallKinds = []string{"msg", "logout", "curopen", "curfetch", "curdeclare", "dynamic", "dynamic2", "params"}
+var smallKinds = []string{"msg", "logout", "curopen", "curfetch", "curdeclare", "dynamic", "dynamic2", "params", "tokenless"}
 var boundarySizes = []int{256, 257, 511, 512, 513, 1024, 4096, 65535}
 
 func encLen(ds []pdesc) int {
@@ -259,7 +299,7 @@ func encLen(ds []pdesc) int {
 }
 
 func genMsg(rt *rapid.T) msgCase {
-	m := msgCase{SendLast: rapid.Bool().Draw(rt, "sendlast")}
+	m := msgCase{SendLast: rapid.Bool().Draw(rt, "sendlast"), Abort: rapid.IntRange(0, 7).Draw(rt, "abort") == 0}
 	if rapid.IntRange(0, 2).Draw(rt, "sizeclass") < 2 {
 		m.PacketSize = rapid.SampledFrom(boundarySizes).Draw(rt, "psize")
 	} else {
